@@ -3,6 +3,7 @@ package main
 import (
 	"fmt"
 	"os"
+	"regexp"
 	"strings"
 	"sync"
 	"sync/atomic"
@@ -10,6 +11,8 @@ import (
 )
 
 func init() { register("C03", checkC03) }
+
+var reTwoPairs = regexp.MustCompile(`-- \S+ \S+ \S+ \S+`)
 
 type clsLine struct {
 	Txt  string   `json:"txt"`
@@ -76,7 +79,7 @@ func checkC03(c *Ctx) error {
 		var files map[string][]string
 		stf, err := c.runTLC(TLCRun{Module: "MC_Parse", Seed: c.Seed, Timeout: 20 * time.Minute,
 			Constants: map[string]string{"Sigma": "<- MCSigma", "N": "= 3", "LeafD": "<- MCLeafD", "Deviations": "<- MCDev", "Cfg": "<- MCCfg",
-				"Family": fmt.Sprintf("= %q", fam), "MaxDepth": "= 1", "MaxLines": "= 3", "Export": "= TRUE", "Theorem": "= FALSE"},
+				"Family": fmt.Sprintf("= %q", fam), "MaxDepth": "= 1", "MaxLines": map[string]string{"exc": "= 2", "def": "= 4"}[fam], "Export": "= TRUE", "Theorem": "= FALSE"},
 			Invs: []string{"ExportCase"}}, func(raw []byte) error {
 			if strings.HasPrefix(string(raw), `{"poolinfo"`) {
 				var pi struct {
@@ -93,8 +96,11 @@ func checkC03(c *Ctx) error {
 				return err
 			}
 			t := strings.Join(cs.Lines, "\n")
-			interesting := (fam == "exc" && strings.Contains(t, " -- ")) || (fam == "def" && strings.Count(t, "define") >= 2 && strings.Contains(t, "{{"))
-			if !interesting || cs.Expect != "ok" || caseHash(cs.Lines, c.Seed)%7 != 0 {
+			// include-except (the include map is rebuilt from a Go map) and suffix pair lists;
+			// chains of three definitions used by an entry
+			interesting := (fam == "exc" && (reTwoPairs.MatchString(t) || strings.Contains(t, "include-except f3"))) ||
+				(fam == "def" && strings.Count(t, "define") >= 3 && strings.Contains(t, "define r ") && strings.Contains(t, "\n{{r}}"))
+			if !interesting || cs.Expect != "ok" || (fam == "def" && caseHash(cs.Lines, c.Seed)%5 != 0) {
 				return nil
 			}
 			mu.Lock()
